@@ -400,9 +400,37 @@ class Cli:
                 raise
             os.close(rfd)
 
-            def _feed(fd=wfd, data=stdin):
+            # Delivery schedule of standard input, chosen from the command line and the input itself (so a replay reproduces it):
+            # a pipe may hand the reader its data in any number of pieces, and a reader that trusts one read() to return
+            # everything is only exposed when the writer pauses. 0 = as fast as the pipe takes it; 1 = first byte, pause, rest;
+            # 2 = 4 KiB pieces with short pauses (first 48 pieces); 3 = split in the middle with a pause; 4 = pause before the last byte.
+            sched = int(hashlib.sha256(b"stdin-schedule" + repr(spec.get("argv")).encode() + stdin[:64]).hexdigest()[:4], 16) % 5
+            if spec.get("stdin_schedule") is not None:
+                sched = spec["stdin_schedule"]
+            cuts = []
+            if len(stdin) >= 2:
+                if sched == 1:
+                    cuts = [1]
+                elif sched == 2:
+                    cuts = list(range(4096, min(len(stdin), 48 * 4096), 4096))
+                elif sched == 3:
+                    cuts = [len(stdin) // 2]
+                elif sched == 4:
+                    cuts = [len(stdin) - 1]
+            obs_sched = {"schedule": sched, "pieces": len(cuts) + 1}
+
+            def _feed(fd=wfd, data=stdin, cuts=cuts):
                 try:
                     view = memoryview(data)
+                    pos = 0
+                    for c in cuts:
+                        piece = view[pos:c]
+                        while len(piece):
+                            n = os.write(fd, piece[:1 << 16])
+                            piece = piece[n:]
+                        pos = c
+                        time.sleep(0.004 if len(cuts) < 4 else 0.001)
+                    view = view[pos:]
                     while len(view):
                         n = os.write(fd, view[:1 << 16])
                         view = view[n:]
@@ -470,6 +498,8 @@ class Cli:
             obs["stdout"] = so[:1 << 16].decode("utf-8", "replace")
             obs["stderr"] = se[-600:].decode("utf-8", "replace")
             obs["wall"] = round(time.time() - t0, 3)
+            if stdin:
+                obs["stdin_delivery"] = obs_sched
             if "__raw_stdout" in spec:
                 obs["_raw"] = so
             if logpath:
